@@ -850,6 +850,28 @@ func specCase(s Spec, kind string) hx.Case {
 	return c
 }
 
+// headerCase: the header bytes as given to polyform and the fields per line found by the independent tokenizer; the
+// Coq model of readLine + strings.Fields (Formats/PlyText.v) must find the same.
+func headerCase(s Spec) (hx.Case, bool) {
+	data := render(s)
+	hdr, _, body, ok := plyx.Split(data)
+	if !ok {
+		return hx.Case{}, false
+	}
+	text := data[:len(data)-len(body)]
+	lines := make([]string, len(hdr))
+	for i, l := range hdr {
+		fs := make([]string, len(l))
+		for j, f := range l {
+			fs[j] = hx.CoqString(f)
+		}
+		lines[i] = "[" + strings.Join(fs, ";") + "]%string"
+	}
+	sum := sha1.Sum(text)
+	return hx.Case{Kind: "header", Desc: s, Key: "hdr:" + hex.EncodeToString(sum[:]),
+		Coq: fmt.Sprintf("CHeader %s\n [%s]", hx.CoqListN(text), strings.Join(lines, ";"))}, true
+}
+
 func vp(ty, name string) VProp { return VProp{Ty: ty, Name: name, Alias: ty} }
 func f32(x float32) uint64     { return uint64(math.Float32bits(x)) }
 
@@ -959,6 +981,11 @@ func main() {
 			}
 		}
 		run.Add(c)
+		if i%4 == 0 && s.Cut == 0 {
+			if hc, ok := headerCase(s); ok {
+				run.Add(hc)
+			}
+		}
 	}
 	run.Finish()
 }
